@@ -122,7 +122,7 @@ def stripZeros : List UInt8 → List UInt8
   | l => l
 
 /-- 32-byte big-endian -/
-def nat32 (x : Nat) : List UInt8 := (List.range 32).map (fun i => UInt8.ofNat (x / 256 ^ (31 - i) % 256))
+def nat32 (x : Nat) : List UInt8 := (Radix.fixedBE 256 32 x).map UInt8.ofNat
 
 inductive DeriveErr | maxDepth | hardFromPub | invalidChild | badPub
 deriving DecidableEq, Repr
